@@ -4,8 +4,10 @@
 package main
 
 import (
+	"crypto/sha256"
 	"encoding/json"
 	"fmt"
+	"io"
 	"os"
 	"os/exec"
 	"path/filepath"
@@ -13,6 +15,7 @@ import (
 	"strconv"
 	"strings"
 	"sync"
+	"syscall"
 	"time"
 )
 
@@ -32,10 +35,28 @@ func envOr(k, d string) string {
 
 func infra(format string, a ...any) {
 	fmt.Fprintf(os.Stderr, "vcheck: infrastructure problem: "+format+"\n", a...)
-	os.Exit(2)
+	exit(2)
+}
+
+// privateBins: this process's own copies of harness binaries (see buildHarness); removed on exit.
+var privateBins []string
+var privateMu sync.Mutex
+
+func exit(code int) {
+	privateMu.Lock()
+	for _, f := range privateBins {
+		os.Remove(f)
+	}
+	privateMu.Unlock()
+	os.Exit(code)
 }
 
 func main() {
+	realMain()
+	exit(0)
+}
+
+func realMain() {
 	if len(os.Args) < 2 {
 		fmt.Fprintln(os.Stderr, "usage: vcheck <Cxx> quick|thorough | vcheck <Cxx> --replay <file> | vcheck setup | vcheck selftest-determinism [harness]")
 		os.Exit(2)
@@ -64,7 +85,7 @@ func main() {
 				worst = rc
 			}
 		}
-		os.Exit(worst)
+		exit(worst)
 	case "debug":
 		debugCmd(os.Args[2:])
 		return
@@ -83,7 +104,7 @@ func main() {
 		infra("unknown property %s", id)
 	}
 	if len(os.Args) >= 4 && os.Args[2] == "--replay" {
-		os.Exit(replayCmd(p, os.Args[3]))
+		exit(replayCmd(p, os.Args[3]))
 	}
 	tier := "quick"
 	if len(os.Args) >= 3 {
@@ -95,7 +116,7 @@ func main() {
 	if tier != "quick" && tier != "thorough" {
 		infra("unknown tier %s", tier)
 	}
-	os.Exit(check(p, tier))
+	exit(check(p, tier))
 }
 
 func setup() {
@@ -146,7 +167,7 @@ func buildVinstr() string {
 
 // modfile writes .build/go.mod (+go.sum): the repository's go.mod plus the simulation
 // kernel, porcupine and the pam stub. /repo/go.mod itself is never touched.
-func modfile() string {
+func modfile(build string) string {
 	src, err := os.ReadFile(filepath.Join(repo, "go.mod"))
 	if err != nil {
 		infra("%v", err)
@@ -209,9 +230,21 @@ func buildHarness(h *Harness) *buildInfo {
 		return bi
 	}
 	t0 := time.Now()
-	mf := modfile()
-	hdir := filepath.Join(build, h.Name)
+	// Several vcheck processes may run at once (other properties of the same harness, another
+	// VERIF_REPO): every (repository path, harness) pair has its own build directory, builds in
+	// it are serialised by a file lock, and each process runs a private copy of the binary.
+	hdir := filepath.Join(build, fmt.Sprintf("%s-%x", h.Name, sha256.Sum256([]byte(repo)))[:len(h.Name)+9])
 	os.MkdirAll(hdir, 0755)
+	lock, err := os.OpenFile(hdir+".lock", os.O_CREATE|os.O_RDWR, 0644)
+	if err != nil {
+		infra("%v", err)
+	}
+	if err := syscall.Flock(int(lock.Fd()), syscall.LOCK_EX); err != nil {
+		infra("flock %s: %v", hdir, err)
+	}
+	defer lock.Close() // releases the lock
+	gcPrivateBins(hdir)
+	mf := modfile(hdir)
 	overlay := map[string]string{}
 	report := map[string]any{}
 	// 1. instrumented copies of repository files, regenerated from the working tree
@@ -282,9 +315,46 @@ func buildHarness(h *Harness) *buildInfo {
 	if err != nil {
 		infra("building harness %s: %v\n%s", h.Name, err, out)
 	}
-	bi := &buildInfo{Bin: bin, Rewriter: report, BuildS: time.Since(t0).Seconds()}
+	priv := filepath.Join(hdir, fmt.Sprintf("run-%d-%s.test", os.Getpid(), h.Name))
+	if err := copyFile(bin, priv); err != nil {
+		infra("%v", err)
+	}
+	privateMu.Lock()
+	privateBins = append(privateBins, priv)
+	privateMu.Unlock()
+	bi := &buildInfo{Bin: priv, Rewriter: report, BuildS: time.Since(t0).Seconds()}
 	built[h.Name] = bi
 	return bi
+}
+
+func copyFile(src, dst string) error {
+	in, err := os.Open(src)
+	if err != nil {
+		return err
+	}
+	defer in.Close()
+	out, err := os.OpenFile(dst, os.O_CREATE|os.O_WRONLY|os.O_TRUNC, 0755)
+	if err != nil {
+		return err
+	}
+	if _, err := io.Copy(out, in); err != nil {
+		out.Close()
+		return err
+	}
+	return out.Close()
+}
+
+// gcPrivateBins removes private binaries left behind by processes that no longer exist.
+func gcPrivateBins(hdir string) {
+	ents, _ := os.ReadDir(hdir)
+	for _, e := range ents {
+		var pid int
+		if n, _ := fmt.Sscanf(e.Name(), "run-%d-", &pid); n == 1 {
+			if _, err := os.Stat(fmt.Sprintf("/proc/%d", pid)); err != nil {
+				os.Remove(filepath.Join(hdir, e.Name()))
+			}
+		}
+	}
 }
 
 // ---- running -------------------------------------------------------------------------
